@@ -117,9 +117,16 @@ class WrappedInstance:
     This is needed to clean it up from the cache after the instance reference died.
     """
 
+    instance_id: int = field(init=False, default=None, repr=False)
+    """
+    The id of the instance.
+    This is needed to clean it up from the instance index after the instance reference died.
+    """
+
     def __post_init__(self, instance: Symbol):
         self.instance_reference = weakref.ref(instance)
         self.instance_type = type(instance)
+        self.instance_id = id(instance)
 
     @property
     def instance(self) -> Optional[Symbol]:
@@ -227,7 +234,10 @@ class SymbolGraph(metaclass=SingletonMeta):
 
         :param wrapped_instance: The instance to remove.
         """
-        self._instance_index.pop(id(wrapped_instance.instance), None)
+        # the instance is usually dead already, so its id has to be remembered by the wrapper. A newer instance that got
+        # the same id has overwritten the entry and keeps it.
+        if self._instance_index.get(wrapped_instance.instance_id) is wrapped_instance:
+            del self._instance_index[wrapped_instance.instance_id]
         self._class_to_wrapped_instances[wrapped_instance.instance_type].remove(
             wrapped_instance
         )
